@@ -21,11 +21,10 @@ row counts incl. 0, while the combined rows fit 32 bits), `filtered(mask, n)` (b
 mask), `update(entries)` (cell assignment by any consistent dictionary of cells, incl. cells set to the
 common value), `reindexed(mapping)` (element-wise value mapping: injective, many-to-one, onto the common value,
 or the default), `sliced(*orders)` (column selection, any number of axes), the three entry-wise set updates (through the verified kernels of C08), the forced queries `get(key, force=True)` /
-`common_rowids`, `column_stack` (= `numpy.column_stack`, any mix of inputs and commons) and construction from
+`common_rowids` / `items(force=True)`, `column_stack` (= `numpy.column_stack`, any mix of inputs and commons) and construction from
 arrays (C01);
 `history_partial` lifts them to arbitrary finite sequences against a NumPy-side specification
-(`specRun`).  The remaining operations of the property (slices1d — see C13 —, collapsed,
-`items`/`to_dict(force=True)`) are modelled in `CatiiModel/IIndex.lean` statement by statement and are tied to
+(`specRun`).  The remaining operations of the property (`slices1d` — see C13 — and the dense content of `collapsed`, whose well-formedness is C07's `collapsed_wellformed`) are modelled in `CatiiModel/IIndex.lean` statement by statement and are tied to
 the real code by the correspondence harness after **every** step of every generated history,
 with the NumPy reference semantics as the oracle on the real code; their refinement lemmas are
 not yet theorems.
@@ -295,6 +294,12 @@ theorem forced_get_is_where (i : IIndex) (h : WF i) (hnd : i.ndim ≤ 2) (k : Ke
 theorem common_rowids_is_where (i : IIndex) (h : WF i) (hi : List Int) (r : Nat) :
     r ∈ commonRowidsHi i hi ↔ r < i.nrows ∧ denseAt i r hi = i.common :=
   commonRowids_spec i h hi r
+
+/-- `items(force=True)` / `to_dict(force=True)`: every item lists exactly the rows where the dense array holds
+the item's value in the item's column -/
+theorem forced_items_are_where (i : IIndex) (h : WF i) (hnd : i.ndim ≤ 2) (x : Key × Rows) (hx : x ∈ itemsForce i)
+    (r : Nat) : r ∈ x.2 ↔ r < i.nrows ∧ denseAt i r (x.1.drop 1) = val0 x.1 :=
+  itemsForce_spec i h hnd x hx r
 
 /-! Non-vacuity -/
 example : WF ⟨[([1], [0, 2]), ([2], [1])], 0, [4]⟩ := wf_sound _ (by decide)
